@@ -244,6 +244,8 @@ def do_op(ctx, op, entry):
             f = e.submit(tasks.ident, key, ARG[kind.split("_")[0]]())
         elif kind == "bad_unpickle_arg":
             f = e.submit(tasks.ident, key, tasks.FailsToUnpickle())
+        elif kind == "big_arg":
+            f = e.submit(tasks.ident, key, tasks.BigArg(*a))
         elif kind == "slow_arg":
             f = e.submit(tasks.ident, key, tasks.SlowArg(*a))
         elif kind == "slow_bad_arg":
